@@ -55,8 +55,10 @@ ANCHORS = [
     _EX + "generate_data", _EX + "generate_dataset", _EX + "generate_empi_dist_sequence", _EX + "generate_empi_dists_sequence",
 ] + [f"quara/protocol/qtomography/standard/{f}.py:{c}.{m}" for c, f in _TOMO_FILES.items()
      for m in ("generate_empi_dist", "generate_empi_dists", "generate_empi_dists_sequence")]
-# _random_number_to_data is entered once per datum: required, but not counted precisely (cost)
-REQUIRED_REACH = ANCHORS + [_DG + "_random_number_to_data"]
+# _random_number_to_data (private, entered once per datum on this tree) is an optional observation point: the per-draw
+# monitor only refines the violation key of the data-level oracle "data.nonzero-probability", which judges every datum
+# of every returned data list anyway; a vectorised implementation that no longer calls it is not less observed
+REQUIRED_REACH = ANCHORS
 REQUIRED_ORACLES = ["data.valid", "data.nonzero-probability", "inversion.interval", "empi.counts-over-n",
                     "calc_empi.prefix-count", "calc_empi.cumulative", "calc_empi.invalid-raises",
                     "history.same-seed", "history.different-seeds", "history.shared-generator-advances",
@@ -1039,7 +1041,7 @@ def shard_inv(ctx, hs, J, M):
             ok, v = ctx.attempt(dg.generate_dataset_from_prob_dists, ps, Ns, [1] * (k + 1))
             ctx.truth("dataset.length-mismatch-raises", not ok, key=f"{name}:accepts-mismatched-seed-list")
             ctx.nontrivial("inv", name, cls, ps, Ns, acts)
-    hs.require(["data_generator._random_number_to_data", "data_generator.generate_data_from_prob_dist", "number_util.to_stream"])
+    hs.require(["data_generator.generate_data_from_prob_dist", "number_util.to_stream"])
 
 
 def shard_adv(ctx, hs, J, M):
@@ -1067,7 +1069,7 @@ def shard_adv(ctx, hs, J, M):
             run_call(ctx, name, lambda g: dg.generate_dataset_from_prob_dists([p, p], [len(vals), 3], [g, g]), stub)
         ctx.truth("adversarial.stream-consumed", stub.qv_calls >= 1, key=f"{name}:generator-argument-not-used")
         ctx.nontrivial("adv", name, cls, p, vals, repr(atol))
-    hs.require(["data_generator._random_number_to_data", "data_generator.generate_data_from_prob_dist"])
+    hs.require(["data_generator.generate_data_from_prob_dist"])
 
 
 EMPI_CLASSES = ["valid", "valid", "valid", "valid-full", "equal-adjacent", "decreasing", "too-long-first", "too-long-later",
@@ -1536,6 +1538,7 @@ def finalize(merged, ctx):
     ctx.note(f"worst per-cell z over all pooled samples: {max(zs or [0]):.3f} (pass <= {Z_PASS}, violation >= {Z_FAIL}); "
              f"worst chi-square / isf(1e-12): {max(cs or [0]):.3f}")
     ctx.note("hook evaluations: " + ", ".join(f"{k}={v}" for k, v in sorted(hooks.items())))
-    missing = [k for k, v in hooks.items() if v == 0]
+    # hooks on private helpers are optional observation points (see REQUIRED_REACH)
+    missing = [k for k, v in hooks.items() if v == 0 and not k.split(".")[-1].startswith("_")]
     if missing:
         ctx.mark_inconclusive(f"hooks never evaluated in any shard: {missing}")
